@@ -165,7 +165,7 @@ fn rpfm_attr_any(r: &mut Rng) -> Vec<u8> {
 
 async fn h11c_connect_case(out: &mut Out, r: &mut Rng) {
     // hostile upstream answering the CONNECT the real h11c_connect sends
-    let statuses = ["HTTP/1.1 200 OK", "HTTP/1.1 200", "HTTP/1.1 99999 x", "HTTP/1.1 -1 x", "HTTP/1.1 abc x", "HTTP/1.1  200 OK", "HTTP/9 200 OK", "200 OK HTTP/1.1", "", "HTTP/1.1 407 Auth"];
+    let statuses = ["HTTP/1.1 200 OK", "HTTP/1.1 200", "HTTP/1.1 99999 x", "HTTP/1.1 -1 x", "HTTP/1.1 abc x", "HTTP/1.1  200 OK", "HTTP/9 200 OK", "200 OK HTTP/1.1", "", "HTTP/1.1 407 Auth", "HTTP/1.1 20", "HTTP/1.1 2", "HTTP/1.1 2\u{20ac} OK", "HTTP/1.1 \u{20ac}\u{20ac} OK", "HTTP/1.1 2000 OK", "HTTP/1.1 200\u{e9}", "HTTP/1.1 \u{e9}"];
     let sids = ["", "0", "7", "x", "-1", "4294967295", "4294967296", "99999999999999999999", " 7", "7 ", "+7", "0x7"];
     let st = *r.pick(&statuses);
     let mut reply = format!("{}\r\n", st);
@@ -174,6 +174,11 @@ async fn h11c_connect_case(out: &mut Out, r: &mut Rng) {
     }
     if r.chance(1, 3) {
         reply += *r.pick(&["X\r\n", ": \r\n", "A: b\r\n", "Session-Id:7\r\n", "\u{e9}: \u{e9}\r\n"]);
+    }
+    if r.chance(1, 3) {
+        // an upstream that names a channel: whatever it says, the caller asked for inline frames and passes a frame_fn that
+        // must never run
+        reply += &format!("Proxy-Channel: {}\r\n", r.pick(&["inline", "quic-datagrams", "Inline", "", "x", "inline, quic-datagrams", "\u{e9}"]));
     }
     reply += "\r\n";
     let mut bytes = reply.into_bytes();
